@@ -16,6 +16,16 @@ theorem setLamports_other (w : World) {k k' : Key} (n : Nat) (h : k' ≠ k) :
     (setLamports w k n) k' = w k' := by
   simp [setLamports, set_other _ _ h]
 
+theorem setLamports_data (w : World) (k k' : Key) (n : Nat) : ((setLamports w k n) k').data = (w k').data := by
+  by_cases h : k' = k
+  · subst h; simp
+  · rw [setLamports_other _ _ h]
+
+theorem setLamports_owner (w : World) (k k' : Key) (n : Nat) : ((setLamports w k n) k').owner = (w k').owner := by
+  by_cases h : k' = k
+  · subst h; simp
+  · rw [setLamports_other _ _ h]
+
 theorem total_set_notmem (ks : List Key) (w : World) (k : Key) (a : Acct) (h : k ∉ ks) :
     total ks (w.set k a) = total ks w := by
   induction ks with
